@@ -835,7 +835,9 @@ def oracle_read(case, real):
             c1, c2 = ptdeg(b['c1']), ptdeg(b['c2'])
             if None not in c1 + c2:
                 cx, cy = (c1[0] + c2[0]) / 2, (c1[1] + c2[1]) / 2
-                if not (near(cx, Fraction(g['pts'][0][0]) if pixel or True else 0) and near(cy, g['pts'][0][1])):
+                gx = Fraction(g['pts'][0][0])
+                # a sky longitude is stored wrapped into [0, 360): same position
+                if not ((near(cx, gx) or (not pixel and near(cx % 360, gx % 360))) and near(cy, g['pts'][0][1])):
                     bad('box_rule', f"corner form: centre {g['pts'][0]} expected {(cx, cy)}")
                 if pixel and not (near(abs(c1[0] - c2[0]), g['sizes'][0][0]) and near(abs(c1[1] - c2[1]), g['sizes'][1][0])):
                     bad('box_rule', f"corner form: size {g['sizes']}")
@@ -947,7 +949,7 @@ class Check(PropertyCheck):
     assumptions = [
         'astropy is a parameter: SkyCoord.transform_to / spherical lon-lat, Quantity.to(radunit), Angle/Quantity string parsing '
         '(sexagesimal and rad notations are compared to 1e-11 relative, decimal degrees exactly), str(Quantity) for `range` '
-        '(table sent with each request), Longitude wrapping (longitudes compared modulo 360)',
+        '(table sent with each request); astropy Longitude wrapping into [0, 360) at parse time IS modelled (wrapLon in Impl/CrtfRead.lean; rad via a 30-digit 180/pi), and the comparison additionally tolerates a whole turn at the float boundary',
         'Python float formatting f"{x:.Nf}" is the correctly rounded (half-even on the exact value) decimal: modelled as fmtDec on '
         'exact rationals and compared as strings on every written number',
         'fmt is of the form ".Nf"; metadata values are str / int / bool / list of str / list of int (no floats); label, text and '
